@@ -197,6 +197,7 @@ _ID_PREFIX = None
         ("recursion-limit-restored-by-every-task", "tatsu/parproc/task.py", "        _limit_users -= 1\n        if _limit_users == 0:\n            sys.setrecursionlimit(_limit_saved)", "        _limit_users -= 1\n        sys.setrecursionlimit(_limit_saved)", "caught"),
         ("recursion-limit-without-lock", "tatsu/parproc/task.py", "    global _limit_users\n    with _limit_lock:\n", "    global _limit_users\n    if True:\n", "caught"),  # restore slips into raise's critical section between its test and its increment
         ("as-completed-with-deadline", "tatsu/parproc/pmap.py", "for future in as_completed(futures):", "for future in as_completed(futures, timeout=1800.0):", "caught"),
+        ("recursion-error-ends-the-run", "tatsu/parproc/task.py", "if isinstance(e, RuntimeError) and not isinstance(e, RecursionError):", "if isinstance(e, RuntimeError):", "caught"),
         ("processing-loop-dedupes-file-names", "tatsu/parproc/legacy.py", "paths = [Path(f) for f in filenames]", "paths = sorted({Path(f) for f in filenames})[:-1]", "caught"),
         ("processing-loop-text-of-first-file", "tatsu/parproc/legacy.py", "payloads = [VisualPayload(p, p.read_text()) for p in paths]", "payloads = [VisualPayload(p, paths[0].read_text()) for p in paths]", "caught"),
         # negative controls: behaviour-preserving edits — the check must stay quiet
